@@ -231,3 +231,12 @@ Proof. destruct o as [c'|e|]; cbn [lift_suite]; split; intros H; try discriminat
 Lemma lift_cfg_returns o : o <> Panic -> returns (lift_cfg o) /\ returns (lift_suite o) /\ returns (lift_suite_nil o).
 Proof. intros H. destruct o as [a|e|]; [repeat split; eexists; reflexivity|repeat split; eexists; reflexivity|congruence]. Qed.
 
+
+(** ListSuites: the names of the registry (in the table's order; Go's map order is unspecified) *)
+Lemma src_ListSuites_loop : forall l fuel acc kx, Src.ListSuites_loop1 l fuel acc kx = kx (acc ++ l).
+Proof.
+  induction l as [|x l IH]; intros fuel acc kx; cbn [Src.ListSuites_loop1]; [rewrite app_nil_r; reflexivity|].
+  rewrite IH, <- app_assoc. reflexivity.
+Qed.
+Lemma src_ListSuites_eq fuel : Src.ListSuites fuel = Val Suite.list_suites.
+Proof. unfold Src.ListSuites. rewrite src_ListSuites_loop. reflexivity. Qed.
